@@ -141,9 +141,7 @@ pub fn bytecode(cx: &mut Raw) {
         idx(T::Map(vec![(lit(V::Str("k".into())), tern(a(), b(), c()))]), bin("||", a(), b())),
     ];
     for t in targeted.iter() {
-        let tick = matches!(t, T::Call { f, .. } if f == "now") || matches!(t, T::List(_)) && count_clock(t) > 0 || matches!(t, T::FStr(_)) && count_clock(t) > 0
-            || matches!(t, T::Call { f, .. } if f == "string") && count_clock(t) > 0;
-        emit_tree(cx, t, true, tick);
+        emit_tree(cx, t, false, false);
     }
     for i in 0..cx.n {
         let depth = 2 + (i % 4) as u32;
@@ -202,6 +200,8 @@ pub fn run_raw_topic(topic: &str, cx: &mut Raw) -> bool {
         "params" => params(cx),
         "sql" => sql(cx),
         "ladder" => ladder(cx),
+        "inject" => inject(cx),
+        "clock" => clock(cx),
         _ => return false,
     }
     true
@@ -1168,5 +1168,223 @@ pub fn sql(cx: &mut Raw) {
         let d = 1 + (i % 3) as u32;
         let t = gen(&mut cx.rng, d, &atom);
         sql_record(cx, &t);
+    }
+}
+
+// ---------------------------------------------------------------------------------------------
+// C10: the VM's own bounds checks.  Forward-jumping instruction sequences that no compiler
+// emitted - jump distances up to past the end, conditions that are booleans, failures or other
+// values - and real programs with one jump distance perturbed, run through the public API.
+
+fn jmpc(when_true: bool, dist: i32) -> rscel::ByteCode {
+    // JmpWhen cannot be named outside the crate: take one from compiled code
+    let donor = rscel::Program::from_source(if when_true { "a || b" } else { "a && b" }).unwrap();
+    let found = donor.bytecode().iter().find_map(|b| match b {
+        rscel::ByteCode::JmpCond { when, .. } => Some(rscel::ByteCode::JmpCond { when: when.clone(), dist }),
+        _ => None,
+    });
+    found.unwrap()
+}
+
+fn run_code(code: Vec<rscel::ByteCode>) -> J {
+    let res = std::panic::catch_unwind(std::panic::AssertUnwindSafe(|| {
+        let prog = rscel::Program::new(rscel::ProgramDetails::new(), code.into_iter().collect());
+        let mut ctx = rscel::CelContext::new();
+        ctx.add_program("main", prog);
+        let b = rscel::BindContext::new();
+        crate::val::outcome(&ctx.exec("main", &b))
+    }));
+    match res {
+        Ok(o) => o,
+        Err(p) => crate::val::crash(&crate::run::panic_msg(p)),
+    }
+}
+
+pub fn inject(cx: &mut Raw) {
+    use rscel::{ByteCode as B, CelValue as C};
+    // 1. exhaustive small family: PUSH 7, PUSH cond, JMPC(when, d), then a tail of length k
+    let conds: Vec<B> = vec![
+        B::Push(C::from(true)),
+        B::Push(C::from(false)),
+        B::Push(C::from_ident("nobody_bound_this")),
+        B::Push(C::from(3i64)),
+    ];
+    for cond in conds.iter() {
+        for when in [true, false] {
+            for k in 0..3usize {
+                for d in 0..(k as i32 + 3) {
+                    let mut code = vec![B::Push(C::from(7i64)), cond.clone(), jmpc(when, d)];
+                    for _ in 0..k {
+                        code.push(B::Not);
+                    }
+                    let cj = crate::proj::code_inline(&code);
+                    cx.emit(json!({"kind":"inject","code":cj,"out":run_code(code)}));
+                }
+            }
+            for k in 0..3usize {
+                for d in 0..(k as i32 + 3) {
+                    let mut code = vec![B::Push(C::from(7i64)), B::Jmp(d)];
+                    for _ in 0..k {
+                        code.push(B::Not);
+                    }
+                    let cj = crate::proj::code_inline(&code);
+                    cx.emit(json!({"kind":"inject","code":cj,"out":run_code(code)}));
+                }
+            }
+        }
+    }
+    // 2. random forward-jumping sequences
+    let n = cx.n;
+    for _ in 0..n {
+        let len = 2 + cx.rng.below(9) as usize;
+        let mut code: Vec<B> = Vec::new();
+        for i in 0..len {
+            let left = (len - i - 1) as i32;
+            let d = if cx.rng.below(3) == 0 { left + 1 + cx.rng.below(3) as i32 } else { cx.rng.below((left + 1) as u64) as i32 };
+            let ins = match cx.rng.below(14) {
+                0 | 1 => B::Push(C::from(true)),
+                2 => B::Push(C::from(false)),
+                3 => B::Push(C::from(1i64)),
+                4 => B::Push(C::from_ident("nobody_bound_this")),
+                5 => B::Pop,
+                6 => B::Dup,
+                7 => B::Not,
+                8 => B::Test,
+                9 => B::Or,
+                10 => B::Jmp(d),
+                11 | 12 => jmpc(cx.rng.below(2) == 0, d),
+                _ => B::And,
+            };
+            code.push(ins);
+        }
+        let cj = crate::proj::code_inline(&code);
+        cx.emit(json!({"kind":"inject","code":cj,"out":run_code(code)}));
+    }
+    // 3. real programs with one jump made to point past the end
+    let g = full_gen();
+    for _ in 0..(n / 4) {
+        let t = g.expr(&mut cx.rng, 3);
+        let src = render(&t, Parens::Min, false, &mut cx.rng);
+        let prog = match rscel::Program::from_source(&src) {
+            Ok(p) => p,
+            Err(_) => continue,
+        };
+        let mut code: Vec<B> = prog.bytecode().iter().cloned().collect();
+        let jumps: Vec<usize> = code.iter().enumerate().filter(|(_, b)| matches!(b, B::Jmp(_) | B::JmpCond { .. })).map(|(i, _)| i).collect();
+        if jumps.is_empty() {
+            continue;
+        }
+        let at = jumps[cx.rng.below(jumps.len() as u64) as usize];
+        let beyond = (code.len() - at) as i32 + cx.rng.below(3) as i32;
+        code[at] = match &code[at] {
+            B::Jmp(_) => B::Jmp(beyond),
+            B::JmpCond { when, .. } => B::JmpCond { when: when.clone(), dist: beyond },
+            other => other.clone(),
+        };
+        let cj = crate::proj::code_inline(&code);
+        let mut o = json!({"kind":"inject","code":cj,"src":src,"perturbed":at});
+        // every variable true / false / failing: the perturbed jump is taken under some of them
+        let mut outs = Vec::new();
+        for v in [Some(true), Some(false), None] {
+            let code2 = code.clone();
+            let res = std::panic::catch_unwind(std::panic::AssertUnwindSafe(move || {
+                let prog = rscel::Program::new(rscel::ProgramDetails::new(), code2.into_iter().collect());
+                let mut ctx = rscel::CelContext::new();
+                ctx.add_program("main", prog);
+                let mut b = rscel::BindContext::new();
+                if let Some(x) = v {
+                    for n in ["a", "b", "c", "m"] {
+                        b.bind_param(n, C::from(x));
+                    }
+                }
+                crate::val::outcome(&ctx.exec("main", &b))
+            }));
+            outs.push(json!({"all": match v { Some(true) => "true", Some(false) => "false", None => "unbound" },
+                             "out": match res { Ok(o) => o, Err(p) => crate::val::crash(&crate::run::panic_msg(p)) }}));
+        }
+        o["outs"] = J::Array(outs);
+        cx.emit(o);
+    }
+}
+
+// ---------------------------------------------------------------------------------------------
+// C09: the clock is read at every execution, however deep the call sits in argument blocks,
+// macro bodies, f-strings and untaken-looking branches.  Every clock call of these trees is live,
+// so the emitted code must still contain each of them; where the value keeps the clock's
+// resolution, two executions a few milliseconds apart must differ.
+
+pub fn clock(cx: &mut Raw) {
+    let now = || call("now", vec![]);
+    let ts0 = || call("timestamp", vec![]);
+    // (wrapper, keeps sub-millisecond resolution)
+    let wrap = |k: u64, x: T| -> (T, bool) {
+        match k {
+            0 => (call("int", vec![x]), false),
+            1 => (call("string", vec![x]), true),
+            2 => (idx(T::List(vec![x]), lit(V::Int(0))), true),
+            3 => (mcall(T::List(vec![lit(V::Int(1))]), "map", vec![id("v"), x]), true),
+            4 => (T::FStr(vec![Seg::Lit("t=".into()), Seg::Expr(x)]), true),
+            5 => (call("coalesce", vec![x]), true),
+            6 => (tern(id("a"), x.clone(), x), true),
+            7 => (call("coalesce", vec![id("nobody_bound_this"), x]), true),
+            8 => (mcall(T::List(vec![lit(V::Int(0))]), "map", vec![id("v"), bin("+", call("int", vec![x]), id("v"))]), false),
+            9 => (T::List(vec![lit(V::Int(1)), x]), true),
+            10 => (call("f1", vec![x]), false),
+            _ => (T::Paren(Box::new(x)), true),
+        }
+    };
+    let mut emit_one = |cx: &mut Raw, t: &T, precise: bool| {
+        let src = render(t, Parens::Min, false, &mut cx.rng);
+        let c = compile_record(&src, false, false, true);
+        let mut j = c.json;
+        j["clock"] = J::from(count_clock(t));
+        if let Some(prog) = c.program {
+            let mut ctx = rscel::CelContext::new();
+            ctx.add_program("main", prog);
+            let mut b = rscel::BindContext::new();
+            b.bind_param("a", rscel::CelValue::from(true));
+            let f1 = |_this: rscel::CelValue, args: Vec<rscel::CelValue>| args.into_iter().next().unwrap_or(rscel::CelValue::from_null());
+            b.bind_func("f1", &f1);
+            let r1 = crate::val::outcome(&ctx.exec("main", &b));
+            std::thread::sleep(std::time::Duration::from_millis(3));
+            let r2 = crate::val::outcome(&ctx.exec("main", &b));
+            if precise {
+                j["tick"] = json!([r1, r2]);
+            }
+        }
+        cx.emit(j);
+    };
+    // every chain of up to three wrappers around now() and around timestamp()
+    for base in 0..2 {
+        let leaf = || if base == 0 { now() } else { ts0() };
+        for k1 in 0..12u64 {
+            let (t1, p1) = wrap(k1, leaf());
+            emit_one(cx, &t1, p1);
+            for k2 in 0..12u64 {
+                let (t2, p2) = wrap(k2, t1.clone());
+                emit_one(cx, &t2, p1 && p2);
+                if base == 0 && (cx.thorough || (k1 + k2) % 3 == 0) {
+                    for k3 in 0..12u64 {
+                        let (t3, p3) = wrap(k3, t2.clone());
+                        emit_one(cx, &t3, p1 && p2 && p3);
+                    }
+                }
+            }
+        }
+    }
+    // random deeper chains, and two clock reads in one program
+    for _ in 0..cx.n {
+        let depth = 3 + cx.rng.below(4);
+        let mut t = now();
+        let mut precise = true;
+        for _ in 0..depth {
+            let (t2, p) = wrap(cx.rng.below(12), t);
+            t = t2;
+            precise = precise && p;
+        }
+        if cx.rng.below(3) == 0 {
+            t = T::List(vec![t, call("string", vec![now()])]);
+        }
+        emit_one(cx, &t, precise);
     }
 }
